@@ -50,6 +50,12 @@ type WriteRec struct {
 type Model struct {
 	Keys    map[string][]Version // ascending Ts
 	Commits []*CommitRec
+	Dropped []droppedVersion // removed by DropPrefix/DropAll
+}
+
+type droppedVersion struct {
+	Key string
+	V   Version
 }
 
 func NewModel() *Model { return &Model{Keys: map[string][]Version{}} }
